@@ -109,11 +109,12 @@ static bool set_field(RadioTap& r, const std::string& f, const bytes& v) {
 }
 
 int main() {
-    std::unique_ptr<RadioTap> rt(new RadioTap());
+    std::unique_ptr<RadioTap> rt;
     const bytes tail = tail_frame();
     return line_loop([&](const std::string& line) -> std::string {
         auto w = words(line);
         if (w.size() == 1 && w[0] == "tail") return "tail " + to_hex(tail);
+        if (!rt) rt.reset(new RadioTap());   // inside the loop: an exception of the constructor becomes a result line
         if (w.size() == 1 && w[0] == "new") {
             rt.reset(new RadioTap());
             return show("new", *rt);
